@@ -125,7 +125,7 @@ def check(tier, seed, procs):
     phase = txpairs.run_phase(tier, procs, MONITORS)
     depth = 6 if tier == 'quick' else 8
     res = dbmc.bfs(H, (sorted(MONITORS), base.setups(tier), tier, QUICK_OPTS if tier == 'quick' else None), depth=depth, procs=procs,
-                   time_budget=70 if tier == 'quick' else 1500)
+                   time_budget=70 if tier == 'quick' else 900)
     cov = bf.coverage(res, f'1 batch, update 1 committed (2-3 jobs, 1-2 nested groups), update 2 submitted step by step '
                            f'(1-2 jobs, 0-1 groups, 1-2 bunches) and committed late or never, one setup with two open updates, 2 pool instances, '
                            f'depth {depth}{" (quick: without token flips, cleanup sweeps, duplicate/stale reports, late schedule calls, preemption)" if tier == "quick" else ""}; monitors {MONITORS} + shadow-world differential')
